@@ -177,7 +177,7 @@ def check(mon, rec, name, text, vars_, expect, kinds, kind='pair', replay=None):
             rec.violation('date-result-outside-range-not-refused:%s' % name, '%s returned %r although the result lies outside '
                           'years 1..9999' % (desc, got[1]), rp)
         return None
-    edge = kind == 'pair' and (want[0] + want[1] > md.MAX_LOCAL - US or want[0] + want[1] < md.MIN_LOCAL + US)
+    edge = kind.startswith('pair') and (want[0] + want[1] > md.MAX_LOCAL - US or want[0] + want[1] < md.MIN_LOCAL + US)
     if got[0] == 'error' and edge and 'timestamp' in name:
         # a float number of seconds has a resolution of ~30 us at the ends of the range: within the last second of year
         # 9999 (first of year 1) rounding may leave the representable range
